@@ -894,7 +894,7 @@ __guess_dtyp(struct strpd_s d)
 		}
 #endif	/* WITH_FAST_ARITH */
 		res.ymcw.w = d.w;
-	} else if (d.y > 0 && d.flags.bizda) {
+	} else if (d.y > 0 && d.m > 0 && d.flags.bizda) {
 		/* d.c can be legit'ly naught */
 		dt_bizda_param_t bp = __make_bizda_param(d.flags.ab, 0);
 		res.param = bp.u;
